@@ -52,7 +52,11 @@ func viaFallback(tc tcase) (failure bool, detail string) {
 		case "errs":
 			b.HandleErrors(errs(cd.Errs)...)
 		case "types":
-			b.HandleErrorTypes(c.TypeTarget(cd.Type))
+			if cd.Type == "" {
+				b.HandleErrorTypes() // a registration call with an empty argument list
+			} else {
+				b.HandleErrorTypes(c.TypeTarget(cd.Type))
+			}
 		case "result":
 			b.HandleResult(cd.Val)
 		case "if":
@@ -77,7 +81,11 @@ func viaRetry(tc tcase) (failure bool, detail string) {
 		case "errs":
 			b.HandleErrors(errs(cd.Errs)...)
 		case "types":
-			b.HandleErrorTypes(c.TypeTarget(cd.Type))
+			if cd.Type == "" {
+				b.HandleErrorTypes() // a registration call with an empty argument list
+			} else {
+				b.HandleErrorTypes(c.TypeTarget(cd.Type))
+			}
 		case "result":
 			b.HandleResult(cd.Val)
 		case "if":
@@ -109,7 +117,11 @@ func breakerWith(tc tcase) circuitbreaker.CircuitBreaker[int] {
 		case "errs":
 			b.HandleErrors(errs(cd.Errs)...)
 		case "types":
-			b.HandleErrorTypes(c.TypeTarget(cd.Type))
+			if cd.Type == "" {
+				b.HandleErrorTypes() // a registration call with an empty argument list
+			} else {
+				b.HandleErrorTypes(c.TypeTarget(cd.Type))
+			}
 		case "result":
 			b.HandleResult(cd.Val)
 		case "if":
@@ -368,6 +380,29 @@ func TestExhaustivePrefix(t *testing.T) {
 						}
 					}
 					st.Case(fmt.Sprintf("empty-registration/%d/%d/%s", len(l), v, e), e != "", "empty-registration")
+				}
+			}
+		}
+	}
+	// ... and next to a real error-handling condition such a call adds no condition and takes none away: the verdict is that
+	// of the real condition alone ("it carries an error and no error-handling condition was configured" does not apply,
+	// one was). Next to result conditions only, the statement is silent and nothing is asserted.
+	for i, x := range a {
+		if i%of != shard%of || x.K == "result" {
+			continue
+		}
+		for _, l := range [][]c.Cond{{x, {K: "errs"}}, {x, {K: "types"}}, {{K: "errs"}, x}, {{K: "types"}, x}, {x, {K: "errs"}, {K: "types"}}} {
+			for v := 0; v <= 3; v++ {
+				for _, e := range c.AllErrs {
+					tc := tcase{Conds: l, V: v, E: e}
+					want := c.IsFailure([]c.Cond{x}, v, c.ErrByName[e])
+					for name, f := range map[string]func(tcase) (bool, string){"fallback": viaFallback, "retry": viaRetry, "breaker-exec": viaBreakerExec} {
+						got, detail := f(tc)
+						if detail != "" || got != want {
+							harness.Violation(t, prop, "TestExhaustivePrefix", "classification-empty-registration", tc, "a registration call without arguments next to %+v, outcome (%d,%s): %s treats it as failure=%v %s; the condition alone makes it failure=%v and the empty call configures nothing", x, v, e, name, got, detail, want)
+						}
+					}
+					st.Case(fmt.Sprintf("empty-registration-next-to/%d/%d/%d/%s", i, len(l), v, e), true, "empty-registration")
 				}
 			}
 		}
